@@ -106,6 +106,15 @@ def safe_sites(fn_rec):
             for lp in loops:
                 if lp[0] == "window" and cont == ("local", lp[1]) and _lit(idx) is not None and 0 <= _lit(idx) < lp[2]:
                     verdict = True
+            # a fixed-size array `[T; N]` indexed by a chrono weekday number (0..=6, or 1..=7 for number_from_*): in bounds when N covers the range
+            ix = _strip(idx)
+            while ix.get("k") == "cast":
+                ix = _strip(ix["e"])
+            mN = re.search(r"\[[^\[\]]*; (\d+)\]$", (e["e"].get("ty") or "").replace("&", "").strip())
+            if mN and ix.get("k") == "mcall" and not ix["args"] and "chrono" in (ix.get("callee") or ix.get("resolved") or ""):
+                top = {"num_days_from_monday": 6, "num_days_from_sunday": 6, "number_from_monday": 7, "number_from_sunday": 7}.get(ix["m"])
+                if top is not None and int(mN.group(1)) > top:
+                    verdict = True
             loops_ = [lp for lp in loops if lp[0] != "window"]
             for var, a, c_key, d in loops_:
                 c = _affine(idx, var)
